@@ -10,8 +10,10 @@ package main
 import (
 	"fmt"
 	"math/big"
+	"os"
 	"strconv"
 	"strings"
+	"syscall"
 	"time"
 
 	"verifharness/hx"
@@ -347,21 +349,58 @@ func run(input string) string {
 
 var hung = map[string]bool{}
 
-// guarded runs one item; a call that does not return within 3 s is reported as "timeout".
+// guarded runs one item and reports "timeout" for a call that does not return. Wall-clock time
+// alone says nothing on a loaded machine (a starved process looks like a hung one), so the
+// verdict is based on the CPU time this process burns while the call is pending: a spinning call
+// accumulates CPU time at whatever share of a core it gets. "timeout" is answered when the
+// process used guardCPU of CPU time since the item started, or (for a call that blocks without
+// spinning) when guardWall elapsed. C24_GUARD_CPU_MS / C24_GUARD_WALL_MS override the limits
+// (the Python driver re-runs every history that reported a timeout alone with larger limits).
 // The spinning goroutine cannot be stopped, so the hazard class (item kind) that hung is
 // remembered and answered "timeout" without calling when the same hazard shows up again.
+var guardCPU = envMillis("C24_GUARD_CPU_MS", 5000)
+var guardWall = envMillis("C24_GUARD_WALL_MS", 120000)
+
+func envMillis(name string, def int) time.Duration {
+	if v, err := strconv.Atoi(os.Getenv(name)); err == nil && v > 0 {
+		return time.Duration(v) * time.Millisecond
+	}
+	return time.Duration(def) * time.Millisecond
+}
+
+func cpuTime() time.Duration {
+	var ru syscall.Rusage
+	if err := syscall.Getrusage(syscall.RUSAGE_SELF, &ru); err != nil {
+		return 0
+	}
+	return time.Duration(ru.Utime.Nano() + ru.Stime.Nano())
+}
+
 func guarded(hazard string, f func() string) (string, bool) {
 	if hazard != "" && hung[hazard] {
 		return "timeout", true
 	}
 	ch := make(chan string, 1)
 	go func() { ch <- canonPanic(hx.Guard(f)) }()
+	// fast path: nearly every item returns within microseconds
 	select {
 	case r := <-ch:
 		return r, false
-	case <-time.After(3 * time.Second):
-		hung[hazard] = true
-		return "timeout", true
+	case <-time.After(200 * time.Millisecond):
+	}
+	cpu0, t0 := cpuTime(), time.Now()
+	tick := time.NewTicker(100 * time.Millisecond)
+	defer tick.Stop()
+	for {
+		select {
+		case r := <-ch:
+			return r, false
+		case <-tick.C:
+			if cpuTime()-cpu0 >= guardCPU || time.Since(t0) >= guardWall {
+				hung[hazard] = true
+				return "timeout", true
+			}
+		}
 	}
 }
 
